@@ -624,6 +624,7 @@ Definition truncate (s : fsys) (v : view) (name : str) (size : Z) : fsys * res :
            match get (f_heap s) c with
            | Some (NFile d k i m) =>
                if Z.ltb size 0 then (s, RFail EInvalidArgument)
+               else if negb (check_permission m OpenWrite (v_user v)) then (s, RFail EPermDenied)
                else (with_heap s (upd (f_heap s) c (NFile (truncate_data d size) k i m)), ROk)
            | _ => (s, RFail EIsADirectory)
            end
